@@ -681,4 +681,6 @@ def literal_reductions(n):
             out.append(["lit", core_.replace("'", ""), n[2], "i"])
     if n[2] >= 0 and str(n[2]) != s and (not out or out[-1][1] != str(n[2])):
         out.append(["lit", str(n[2]), n[2], "i"])
+    elif n[2] < 0:
+        out.append(["par", ["un", "-", ["lit", str(-n[2]), -n[2], "i"]]])
     return out
